@@ -102,13 +102,13 @@ def run(ctx):
     emb_terms, adj_terms, split_terms, rps_terms = [], [], [], []
     gs = solver.QGMRESSolver()
     rng = ctx.rng
-    for cls, A in gen_inputs(ctx):
+    def one(cls, A):
         m, n = qx.shape(A); An = qx.to_np(A)
         try:
             RE = fr(utils.real_expand(An)); cA = [np.array(c, dtype=float) for c in qx.comps(A)]
             RP = fr(utils.Realp(*cA)); RC = qx.from_np(utils.real_contract(utils.real_expand(An), m, n))
         except Exception as e:
-            viol('C02:raises', f'embedding raised {e!r}', A); continue
+            viol('C02:raises', f'embedding raised {e!r}', A); return
         if m * n <= 6:
             for lname, Al in qx.layouts(An):
                 try:
@@ -168,7 +168,7 @@ def run(ctx):
         split_terms.append(f'({m}%nat, {n}%nat, {z(fr(S))}, ' + ', '.join(z(fr(p)) for p in parts) + ')')
         if m == n:
             try: M = utils.quaternion_to_complex_adjoint(An)
-            except Exception as e: viol('C02:adjoint:raises', f'adjoint raised {e!r}', A); continue
+            except Exception as e: viol('C02:adjoint:raises', f'adjoint raised {e!r}', A); return
             are, aim = fr(M.real), fr(M.imag); rre, rim = adj_ref(A)
             if are != rre or aim != rim: viol('C02:adjoint:layout', 'complex adjoint differs from [[C, D], [-conj D, conj C]]', A, (are, aim), (rre, rim))
             B = qx.rand_int(rng, n, n, -5, 5); MB = utils.quaternion_to_complex_adjoint(qx.to_np(B))
@@ -178,6 +178,9 @@ def run(ctx):
             if fr(Hm.real) != rT(are) or fr(Hm.imag) != [[-v for v in r] for r in rT(aim)]: viol('C02:adjoint:herm', 'Adj(A^H) != Adj(A)^H', A)
             if sum(v * v for r in are for v in r) + sum(v * v for r in aim for v in r) != 2 * f2: viol('C02:adjoint:frob', '||Adj(A)||_F^2 != 2 ||A||_F^2', A)
             adj_terms.append(f'({n}%nat, ({", ".join(cm.zmat_lit(c) for c in qx.comps(A))}), {z(are)}, {z(aim)})')
+    for cls, A in gen_inputs(ctx):
+        try: one(cls, A)
+        except Exception as e: viol('C02:raises:' + type(e).__name__, f'an embedding, its inverse or a law check raised {e!r} on a {len(A)}x{len(A[0])} integer matrix', A)
     # scalar Realp and non-integer bit-for-bit round trip
     for _ in range(40 if ctx.quick() else 400):
         a = [rng.randint(-9, 9) for _ in range(4)]
